@@ -1,27 +1,775 @@
-//! C16 — not built yet (stub so that the binary links; `./check C16` reports INFRA until replaced).
+//! C16 — compilation is deterministic: the same sources give byte-identical Lua, or the same list of
+//! errors (locations, messages, order), independent of process, hash seeds, environment and of how many
+//! compilations ran before. Oracle: an invariant over repetitions.
 use arbitrary::Unstructured;
-use vcore::{Check, Labels, Plan, Tier, Verdict};
+use serde::{Deserialize, Serialize};
+use serde_json::json;
+use std::path::{Path, PathBuf};
+use std::sync::atomic::{AtomicU64, Ordering};
+use std::sync::OnceLock;
+use vcore::{compile, compile_fs, Check, ErrInfo, Found, Labels, Outcome, Project, RunCfg, Stats, Step, Tape, Tier, Verdict};
 
-pub struct Stub;
-pub const CHECK: Stub = Stub;
-pub fn plan(_t: Tier) -> Plan {
-    Plan::new(1, 16)
+#[path = "c16_gen.rs"]
+mod gen;
+
+pub struct C16;
+pub const CHECK: C16 = C16;
+pub fn plan(t: Tier) -> vcore::Plan {
+    vcore::Plan::new(t.pick(1_500, 20_000), 2000)
 }
-impl Check for Stub {
-    type Case = u8;
+
+/// in-process repetitions when the first outcome is accepted Lua / a list of errors.
+/// A dependence on hash order that picks one of k >= 2 equally likely results per compile goes unnoticed
+/// with probability k^(1-N): N = 8 -> <= 0.79 % (k = 2), 0.05 % (k = 3); N = 24 -> <= 1.2e-7.
+const N_ACCEPTED: usize = 8;
+const N_REJECTED: usize = 24;
+/// the repetition before which 20 unrelated projects are compiled
+const REP_AFTER_UNRELATED: usize = 3;
+/// the repetition that runs on a fresh thread (fresh `RandomState` key material from the OS)
+const REP_FRESH_THREAD: usize = 5;
+const XPROC_RUNS: usize = 3;
+const DEFAULT_SYLT_BIN: &str = "/verif/harness/target/repo-bin/release/sylt";
+
+#[derive(Clone, Serialize, Deserialize)]
+pub struct Case {
+    pub project: Project,
+    /// construct class the generator aimed at
+    pub class: String,
+    /// independent errors planted by construction (0 = valid program or unknown)
+    #[serde(default)]
+    pub planted: u32,
+    /// the known-finding avoidance switch was on when this case was generated (informational)
+    #[serde(default)]
+    pub avoid: bool,
+}
+
+static COUNTER: AtomicU64 = AtomicU64::new(0);
+
+// ------------------------------------------------------------------------------------------------
+// the real driver binary (cross-process part)
+// ------------------------------------------------------------------------------------------------
+
+fn newest_source_mtime(root: &Path) -> Option<std::time::SystemTime> {
+    fn walk(d: &Path, newest: &mut Option<std::time::SystemTime>, depth: usize) {
+        if depth > 6 {
+            return;
+        }
+        if let Ok(rd) = std::fs::read_dir(d) {
+            for e in rd.flatten() {
+                let p = e.path();
+                let name = e.file_name().to_string_lossy().to_string();
+                if p.is_dir() {
+                    if name == "target" || name == "tests" || name.starts_with('.') || name == "docs" {
+                        continue;
+                    }
+                    walk(&p, newest, depth + 1);
+                } else if name.ends_with(".rs") || name.ends_with(".sy") || name.ends_with(".lua") || name == "Cargo.toml" || name == "Cargo.lock" {
+                    if let Ok(m) = e.metadata().and_then(|m| m.modified()) {
+                        if newest.map(|n| m > n).unwrap_or(true) {
+                            *newest = Some(m);
+                        }
+                    }
+                }
+            }
+        }
+    }
+    let mut newest = None;
+    walk(root, &mut newest, 0);
+    newest
+}
+
+/// Ok(path) when the driver binary exists and is not older than the sources of the tree under test
+fn sylt_bin() -> &'static Result<PathBuf, String> {
+    static B: OnceLock<Result<PathBuf, String>> = OnceLock::new();
+    B.get_or_init(|| {
+        let bin = PathBuf::from(std::env::var("SYLT_BIN").unwrap_or_else(|_| DEFAULT_SYLT_BIN.to_string()));
+        if !bin.is_file() {
+            return Err(format!("driver binary {} is absent", bin.display()));
+        }
+        let repo = std::env::var("SYLT_REPO").unwrap_or_else(|_| "/repo".to_string());
+        let bin_m = std::fs::metadata(&bin).and_then(|m| m.modified()).map_err(|e| e.to_string())?;
+        match newest_source_mtime(Path::new(&repo)) {
+            Some(src_m) if src_m > bin_m => Err(format!("driver binary {} is older than the sources under {} (stale)", bin.display(), repo)),
+            _ => Ok(bin),
+        }
+    })
+}
+
+#[derive(PartialEq, Eq, Clone)]
+struct ProcOut {
+    code: Option<i32>,
+    stdout: Vec<u8>,
+    stderr: Vec<u8>,
+    /// bytes of the `-o` file, None = not created
+    file: Option<Vec<u8>>,
+}
+
+fn lossy(b: &[u8], max: usize) -> String {
+    let s = String::from_utf8_lossy(b).to_string();
+    if s.len() > max {
+        let mut end = max;
+        while !s.is_char_boundary(end) {
+            end -= 1;
+        }
+        format!("{}…[+{} bytes]", &s[..end], s.len() - end)
+    } else {
+        s
+    }
+}
+
+impl ProcOut {
+    fn describe(&self) -> String {
+        format!(
+            "exit status {:?}, -o file {}, stdout:\n{}\nstderr:\n{}",
+            self.code,
+            match &self.file {
+                Some(b) => format!("{} bytes (hash {:016x})", b.len(), vcore::hash64(&b[..])),
+                None => "not created".to_string(),
+            },
+            lossy(&self.stdout, 1500),
+            lossy(&self.stderr, 600)
+        )
+    }
+}
+
+/// run `sylt -o <out> <main>`; `variant` 0/1 = inherited environment, cwd = project directory;
+/// 2 = scrubbed + unusual environment, other cwd, other HOME. Err = spawn failure / timeout.
+fn run_driver(bin: &Path, dir: &Path, proj: &Project, variant: usize) -> Result<ProcOut, String> {
+    use std::process::{Command, Stdio};
+    let out_file = dir.join(format!("xproc-{}.lua", variant));
+    let so = dir.join(format!("xproc-{}.stdout", variant));
+    let se = dir.join(format!("xproc-{}.stderr", variant));
+    let mut cmd = Command::new(bin);
+    cmd.arg("-o").arg(&out_file);
+    if !proj.std {
+        cmd.arg("--no-std");
+    }
+    if let Some(r) = &proj.require {
+        cmd.arg("-r").arg(r);
+    }
+    cmd.arg(&proj.main);
+    if variant == 2 {
+        let alt = dir.join("elsewhere");
+        let _ = std::fs::create_dir_all(&alt);
+        cmd.env_clear()
+            .env("PATH", "/usr/bin:/bin")
+            .env("HOME", "/nonexistent-home")
+            .env("LANG", "tr_TR.UTF-8")
+            .env("LC_ALL", "C")
+            .env("TZ", "Pacific/Kiritimati")
+            .env("TERM", "dumb")
+            .env("COLUMNS", "13")
+            .env("LINES", "3")
+            .env("TMPDIR", "/nonexistent-tmp")
+            .env("USER", "somebody-else")
+            .env("RUST_LOG", "trace")
+            .env("SYLT_PATH", "/nowhere")
+            .env("LUA_PATH", "/nowhere/?.lua")
+            .env("VERIF_EXTRA_VARIABLE", "x".repeat(300))
+            .current_dir(&alt);
+    } else {
+        cmd.current_dir(dir);
+    }
+    // colour control and backtraces are fixed: they are documented switches, not part of the claim
+    cmd.env("NO_COLOR", "1").env("CLICOLOR", "0").env_remove("CLICOLOR_FORCE").env("RUST_BACKTRACE", "0");
+    let fo = std::fs::File::create(&so).map_err(|e| e.to_string())?;
+    let fe = std::fs::File::create(&se).map_err(|e| e.to_string())?;
+    let mut child = cmd.stdin(Stdio::null()).stdout(Stdio::from(fo)).stderr(Stdio::from(fe)).spawn().map_err(|e| format!("spawn: {}", e))?;
+    let t0 = std::time::Instant::now();
+    let status = loop {
+        match child.try_wait() {
+            Ok(Some(st)) => break st,
+            Ok(None) => {
+                if t0.elapsed().as_secs() > 15 {
+                    let _ = child.kill();
+                    let _ = child.wait();
+                    return Err("timeout".into());
+                }
+                std::thread::sleep(std::time::Duration::from_micros(300));
+            }
+            Err(e) => return Err(format!("wait: {}", e)),
+        }
+    };
+    let r = ProcOut {
+        code: status.code(),
+        stdout: std::fs::read(&so).unwrap_or_default(),
+        stderr: std::fs::read(&se).unwrap_or_default(),
+        file: std::fs::read(&out_file).ok(),
+    };
+    let _ = std::fs::remove_file(&out_file);
+    Ok(r)
+}
+
+// ------------------------------------------------------------------------------------------------
+// comparison
+// ------------------------------------------------------------------------------------------------
+
+/// what the nearest preceding column-0 line of `file` above `line` declares
+fn enclosing_decl(proj: &Project, file: &Option<String>, line: usize) -> &'static str {
+    let src = match file.as_ref().and_then(|f| proj.files.get(f)) {
+        Some(s) => s,
+        None => return "no-source",
+    };
+    let lines: Vec<&str> = src.split('\n').collect();
+    if line == 0 || line > lines.len() {
+        return "no-line";
+    }
+    let mut i = line;
+    while i >= 1 {
+        let l = lines[i - 1];
+        let first = l.chars().next();
+        let top = matches!(first, Some(c) if !c.is_whitespace()) && !l.starts_with("//") && !l.starts_with("end") && !l.starts_with('}');
+        if top {
+            if l.contains(":: blob") || l.contains(":: externblob") {
+                return "blob-fields";
+            }
+            if l.contains(":: enum") {
+                return "enum-variants";
+            }
+            if l.starts_with("use ") || l.starts_with("from ") {
+                return "import";
+            }
+            return "definition";
+        }
+        i -= 1;
+    }
+    "file-head"
+}
+
+fn phase_of(e: &ErrInfo) -> &'static str {
+    match e.kind.as_str() {
+        "Syntax" | "GitConflict" => "parser",
+        "FileNotFound" | "IO" => "file-loading",
+        "Compile" => "name-resolution",
+        "Type" => "typechecker",
+        _ => "other",
+    }
+}
+
+fn same_but_rendering(a: &ErrInfo, b: &ErrInfo) -> bool {
+    a.kind == b.kind && a.sub == b.sub && a.file == b.file && a.line == b.line && a.line_end == b.line_end && a.col_start == b.col_start && a.col_end == b.col_end && a.message == b.message
+}
+
+fn show_err(e: &ErrInfo) -> String {
+    format!(
+        "{}{} error at {}:{} (columns {}-{}): {}",
+        e.kind,
+        if e.sub.is_empty() { String::new() } else { format!("/{}", e.sub) },
+        e.file.clone().unwrap_or_else(|| "<no file>".into()),
+        e.line,
+        e.col_start,
+        e.col_end,
+        vcore::first_line(&e.message)
+    )
+}
+
+fn show_outcome(o: &Outcome) -> String {
+    match o {
+        Outcome::Accepted(b) => format!("accepted, {} bytes of Lua (hash {:016x})", b.len(), vcore::hash64(&b[..])),
+        Outcome::Rejected { errors, .. } => {
+            let mut s = format!("rejected with {} error(s):\n", errors.len());
+            for (i, e) in errors.iter().enumerate().take(8) {
+                s.push_str(&format!("  [{}] {}\n", i, show_err(e)));
+            }
+            if errors.len() > 8 {
+                s.push_str(&format!("  … {} more\n", errors.len() - 8));
+            }
+            s
+        }
+        Outcome::Panicked { message, location, .. } => format!("PANIC at {}: {}", location, vcore::first_line(message)),
+    }
+}
+
+fn sources(p: &Project) -> String {
+    let mut s = String::new();
+    for (n, src) in &p.files {
+        s.push_str(&format!("--- {}{} ---\n{}\n", n, if *n == p.main { " (main)" } else { "" }, lossy(src.as_bytes(), 3000)));
+    }
+    s
+}
+
+/// (signature tail, explanation) when two outcomes of the same project differ
+fn difference(orig: &Project, a: &Outcome, b: &Outcome, strip: &str) -> Option<(String, String)> {
+    if a == b {
+        return None;
+    }
+    let unroot = |f: &Option<String>| f.as_ref().map(|f| f.strip_prefix(strip).map(|r| r.to_string()).unwrap_or_else(|| f.clone()));
+    match (a, b) {
+        (Outcome::Accepted(x), Outcome::Accepted(y)) => {
+            let mut lx: Vec<&[u8]> = x.split(|c| *c == b'\n').collect();
+            let mut ly: Vec<&[u8]> = y.split(|c| *c == b'\n').collect();
+            let first = lx.iter().zip(ly.iter()).position(|(p, q)| p != q).unwrap_or(lx.len().min(ly.len()));
+            let detail = format!(
+                "first differing Lua line {}:\n  one run : {}\n  another : {}",
+                first + 1,
+                lossy(lx.get(first).copied().unwrap_or(b"<end>"), 300),
+                lossy(ly.get(first).copied().unwrap_or(b"<end>"), 300)
+            );
+            lx.sort();
+            ly.sort();
+            let what = if lx == ly { "lua-lines-reordered" } else { "lua-content-differs" };
+            Some((format!("output/{}", what), detail))
+        }
+        (Outcome::Rejected { errors: x, .. }, Outcome::Rejected { errors: y, .. }) => {
+            let idx = x.iter().zip(y.iter()).position(|(p, q)| p != q);
+            let i = match idx {
+                Some(i) => i,
+                None if x.len() == y.len() => {
+                    return Some(("outcome/bytes-written-differ".to_string(), "equal error lists, but a different number of bytes reached the output".to_string()));
+                }
+                None => {
+                    return Some(("errors/count-differs".to_string(), format!("{} errors in one run, {} in another", x.len(), y.len())));
+                }
+            };
+            let (ea, eb) = (&x[i], &y[i]);
+            let phase = phase_of(ea);
+            if same_but_rendering(ea, eb) {
+                // only the rendered text differs (help lines, suggestions)
+                let ra = ea.rendered.clone().unwrap_or_default();
+                let rb = eb.rendered.clone().unwrap_or_default();
+                let la: Vec<&str> = ra.lines().collect();
+                let lb: Vec<&str> = rb.lines().collect();
+                let k = la.iter().zip(lb.iter()).position(|(p, q)| p != q).unwrap_or(la.len().min(lb.len()));
+                let l1 = la.get(k).copied().unwrap_or("<end>");
+                let l2 = lb.get(k).copied().unwrap_or("<end>");
+                let what = if l1.contains("Maybe you ment") || l2.contains("Maybe you ment") { "suggestion-differs" } else { "rendering-differs" };
+                return Some((format!("errors/{}/{}", what, phase), format!("error [{}] {} renders differently:\n  one run : {}\n  another : {}", i, show_err(ea), l1, l2)));
+            }
+            let mut sx: Vec<String> = x.iter().map(|e| format!("{:?}", e)).collect();
+            let mut sy: Vec<String> = y.iter().map(|e| format!("{:?}", e)).collect();
+            sx.sort();
+            sy.sort();
+            let what = if sx == sy {
+                "order-differs"
+            } else if i == 0 {
+                "first-error-differs"
+            } else if x.len() != y.len() {
+                "count-differs"
+            } else {
+                "later-error-differs"
+            };
+            let (da, db) = (enclosing_decl(orig, &unroot(&ea.file), ea.line), enclosing_decl(orig, &unroot(&eb.file), eb.line));
+            let same_decl_start = |e: &ErrInfo| -> usize {
+                // line of the enclosing column-0 line, to tell "inside one declaration" from "across declarations"
+                let f = unroot(&e.file);
+                let src = f.as_ref().and_then(|f| orig.files.get(f)).map(|s| s.as_str()).unwrap_or("");
+                let lines: Vec<&str> = src.split('\n').collect();
+                let mut i = e.line.min(lines.len());
+                while i >= 1 {
+                    let l = lines[i - 1];
+                    if matches!(l.chars().next(), Some(c) if !c.is_whitespace()) && !l.starts_with("end") && !l.starts_with('}') && !l.starts_with("//") {
+                        return i;
+                    }
+                    i -= 1;
+                }
+                0
+            };
+            let site = if ea.file != eb.file {
+                "across-files".to_string()
+            } else if phase_of(ea) != phase_of(eb) {
+                "across-phases".to_string()
+            } else if same_decl_start(ea) != same_decl_start(eb) {
+                format!("{}/across-declarations", phase)
+            } else if da == db {
+                format!("{}/{}", phase, da)
+            } else {
+                format!("{}/mixed", phase)
+            };
+            Some((
+                format!("errors/{}/{}", what, site),
+                format!("error [{}] of the list differs between two compilations of the same sources:\n  one run : {}\n  another : {}", i, show_err(ea), show_err(eb)),
+            ))
+        }
+        (Outcome::Panicked { .. }, Outcome::Panicked { .. }) => Some(("outcome/panic-differs".to_string(), "both runs panic, differently".to_string())),
+        _ => {
+            let k = |o: &Outcome| match o {
+                Outcome::Accepted(_) => "accepted",
+                Outcome::Rejected { .. } => "rejected",
+                Outcome::Panicked { .. } => "panicked",
+            };
+            let (mut p, mut q) = (k(a), k(b));
+            if p > q {
+                std::mem::swap(&mut p, &mut q);
+            }
+            Some((format!("outcome/{}-vs-{}", p, q), "one compilation succeeds/fails where another does not".to_string()))
+        }
+    }
+}
+
+/// blobs/enums with >= 3 fields/variants in the user files (each is a hash-ordered collection in the AST)
+fn wide_collections(p: &Project) -> usize {
+    let files = &p.files;
+    let reader = |path: &Path| -> Result<String, sylt_common::error::Error> {
+        files.get(&path.to_string_lossy().to_string()).cloned().ok_or_else(|| sylt_common::error::Error::FileNotFound(path.to_path_buf()))
+    };
+    let main = PathBuf::from(&p.main);
+    let tree = match vcore::guarded(|| sylt_parser::tree(&main, reader, false)) {
+        Ok(Ok(t)) => t,
+        _ => return 0,
+    };
+    let mut n = 0;
+    for (_, m) in &tree.modules {
+        for s in &m.statements {
+            match &s.kind {
+                sylt_parser::StatementKind::Blob { fields, .. } if fields.len() >= 3 => n += 1,
+                sylt_parser::StatementKind::Enum { variants, .. } if variants.len() >= 3 => n += 1,
+                _ => {}
+            }
+        }
+    }
+    n
+}
+
+impl C16 {
+    fn violation(&self, case: &Case, tail: String, expl: String, how: &str, a: String, b: String) -> Verdict {
+        Verdict::Violation {
+            signature: format!("C16/{}", tail),
+            detail: format!(
+                "{} ({}; generator class {}, {} planted independent error(s))\n{}\n=== one compilation ===\n{}\n=== another compilation of the same sources ===\n{}\n=== sources ===\n{}",
+                expl,
+                how,
+                case.class,
+                case.planted,
+                "the same project was compiled repeatedly; all results must be identical",
+                a,
+                b,
+                sources(&case.project)
+            ),
+        }
+    }
+}
+
+impl Check for C16 {
+    type Case = Case;
     fn id(&self) -> &'static str {
         "C16"
     }
-    fn generate(&self, _u: &mut Unstructured, _tier: Tier) -> Option<u8> {
-        None
+
+    fn generate(&self, u: &mut Unstructured, _tier: Tier) -> Option<Case> {
+        let mut t = Tape::new(u);
+        // known-finding avoidance: on for 80 % of the budget
+        let avoid = !t.chance(1, 5);
+        let b = gen::build(&mut t, avoid);
+        Some(Case { project: b.project, class: b.class.to_string(), planted: b.planted, avoid })
     }
-    fn evaluate(&self, _case: &u8, _labels: &mut Labels) -> Verdict {
-        Verdict::Discard("stub".into())
+
+    fn evaluate(&self, case: &Case, labels: &mut Labels) -> Verdict {
+        labels.add(format!("class:{}", case.class));
+        labels.add(if case.avoid { "switch:avoid-known-triggers" } else { "switch:free" });
+        labels.add(format!("files:{}", case.project.files.len().min(4)));
+        let n = COUNTER.fetch_add(1, Ordering::Relaxed);
+        let dir = std::env::temp_dir().join(format!("verif-c16-{}-{}", std::process::id(), n));
+        let proj = match case.project.materialize(&dir) {
+            Ok(p) => p,
+            Err(_) => {
+                let _ = std::fs::remove_dir_all(&dir);
+                return Verdict::Discard("materialize-failed".into());
+            }
+        };
+        let v = self.evaluate_in(case, &proj, &dir, labels);
+        let _ = std::fs::remove_dir_all(&dir);
+        v
     }
+
+    fn simplify_at(&self, case: &Case, idx: usize) -> Step<Case> {
+        let mut k = idx;
+        let names: Vec<String> = case.project.files.keys().cloned().collect();
+        let others: Vec<&String> = names.iter().filter(|n| **n != case.project.main).collect();
+        if k < others.len() {
+            let mut c = case.clone();
+            c.project.files.remove(others[k]);
+            return Step::Candidate(c);
+        }
+        k -= others.len();
+        for name in &names {
+            let src = &case.project.files[name];
+            let lines: Vec<&str> = src.split('\n').collect();
+            let n = lines.len();
+            // A: a line together with its more-indented block (and the closing `end` / `}`)
+            if k < n {
+                let i = k;
+                if lines[i].trim().is_empty() {
+                    return Step::Skip;
+                }
+                let ind = lines[i].chars().take_while(|c| *c == ' ').count();
+                let mut j = i + 1;
+                while j < n && (lines[j].trim().is_empty() || lines[j].chars().take_while(|c| *c == ' ').count() > ind) {
+                    j += 1;
+                }
+                if j < n && j > i + 1 && (lines[j].trim_start().starts_with("end") || lines[j].trim_start().starts_with('}')) && lines[j].chars().take_while(|c| *c == ' ').count() == ind {
+                    j += 1;
+                }
+                let mut out: Vec<&str> = lines[..i].to_vec();
+                out.extend_from_slice(&lines[j..]);
+                let mut c = case.clone();
+                c.project.files.insert(name.clone(), out.join("\n"));
+                return Step::Candidate(c);
+            }
+            k -= n;
+            // B: a single line
+            if k < n {
+                if lines[k].trim().is_empty() {
+                    return Step::Skip;
+                }
+                let mut out: Vec<&str> = lines.clone();
+                out.remove(k);
+                let mut c = case.clone();
+                c.project.files.insert(name.clone(), out.join("\n"));
+                return Step::Candidate(c);
+            }
+            k -= n;
+            // C: one comma-separated member of a one-line `{ … }` / `enum … end` declaration (up to 8 per line)
+            if k < n * 8 {
+                let (li, item) = (k / 8, k % 8);
+                let l = lines[li];
+                let (open, close) = if let (Some(o), Some(c)) = (l.find('{'), l.rfind('}')) {
+                    (o + 1, c)
+                } else if let (Some(o), Some(c)) = (l.find(":: enum "), l.rfind(" end")) {
+                    (o + 8, c)
+                } else {
+                    return Step::Skip;
+                };
+                if open >= close {
+                    return Step::Skip;
+                }
+                let inner = &l[open..close];
+                // split at top-level commas
+                let mut parts: Vec<String> = Vec::new();
+                let mut depth = 0i32;
+                let mut cur = String::new();
+                for ch in inner.chars() {
+                    match ch {
+                        '(' | '[' => depth += 1,
+                        ')' | ']' => depth -= 1,
+                        _ => {}
+                    }
+                    if ch == ',' && depth == 0 {
+                        parts.push(std::mem::take(&mut cur));
+                    } else {
+                        cur.push(ch);
+                    }
+                }
+                if !cur.trim().is_empty() {
+                    parts.push(cur);
+                }
+                if item >= parts.len() || parts.len() < 2 {
+                    return Step::Skip;
+                }
+                parts.remove(item);
+                let rebuilt = format!("{} {} {}", l[..open].trim_end(), parts.iter().map(|p| p.trim()).collect::<Vec<_>>().join(", "), l[close..].trim_start());
+                let mut out: Vec<String> = lines.iter().map(|x| x.to_string()).collect();
+                out[li] = rebuilt;
+                let mut c = case.clone();
+                c.project.files.insert(name.clone(), out.join("\n"));
+                return Step::Candidate(c);
+            }
+            k -= n * 8;
+        }
+        Step::End
+    }
+
+    fn sample(&self, case: &Case) -> serde_json::Value {
+        vcore::truncate_value(json!({"class": case.class, "planted_errors": case.planted, "avoid_switch": case.avoid, "files": case.project.files}), 1500)
+    }
+
     fn rule(&self) -> String {
-        "stub".into()
+        format!(
+            "cases: 1-4 file projects from 15 construct classes ({}): valid programs (GenAST generator; blobs/enums with 3-8 \
+             fields/variants incl. generics, literals in shuffled field order; 2-3 imported modules) and invalid programs with several \
+             independent errors of one phase (blobs/enums whose member types are unresolvable / use undeclared generics / too many type \
+             arguments; unresolved names with 3-8 candidates at equal edit distance; duplicate definitions; type errors in several \
+             functions and chained globals; syntax errors in several lines/files; missing files; import errors; mutated corpus programs). \
+             Oracle: the project is materialised and compiled {} times in-process when it is accepted, {} times when it is rejected \
+             (every HashMap of the compiler gets a new RandomState per compile; repetition {} runs after 20 unrelated compilations, \
+             repetition {} on a fresh thread); all outcomes must be equal: identical Lua bytes, or identical error lists (kind, variant, \
+             file, line, columns, message, rendered text, order). Detection: a dependence that picks one of k>=2 equally likely results \
+             per compile is missed with probability k^(1-N): <= 0.79 % for accepted programs (N=8, k=2; 0.05 % for k=3), <= 1.2e-7 for \
+             rejected ones (N=24), i.e. > 99 % per case for every class. Cross-process (when the driver binary of the tree is present \
+             and not older than the sources): {} runs of `sylt -o FILE main.sy` in fresh processes, the last with a scrubbed, unusual \
+             environment (HOME, LANG, TZ, TERM, TMPDIR, extra variables) and another working directory: exit status, stdout, stderr \
+             and output-file bytes must be identical, and equal to the in-process result (Lua bytes / rendered errors). NO_COLOR and \
+             RUST_BACKTRACE are fixed. non-trivial = >= 2 independent errors (planted or reported) or >= 2 blobs/enums with >= 3 \
+             members in the user files; distinct by hash of the project",
+            gen::CLASSES.join(", "),
+            N_ACCEPTED,
+            N_REJECTED,
+            REP_AFTER_UNRELATED,
+            REP_FRESH_THREAD,
+            XPROC_RUNS
+        )
     }
-    fn health(&self, _s: &vcore::Stats) -> Result<(), String> {
-        Err("check not built yet".into())
+
+    fn assumptions(&self) -> Vec<String> {
+        vec![
+            "colour control (NO_COLOR/CLICOLOR) and RUST_BACKTRACE are documented switches and are held fixed; nothing else in the environment is held fixed".into(),
+            "a project whose every compilation panics identically is discarded here (totality is C07's property)".into(),
+            "the cross-process part runs only when target/repo-bin/release/sylt exists and is not older than the sources of the tree (otherwise coverage.cross_process = false)".into(),
+        ]
+    }
+
+    fn health(&self, s: &Stats) -> Result<(), String> {
+        let n = s.evaluations.max(1);
+        for c in gen::CLASSES {
+            let k = s.label(&format!("class:{}", c));
+            if k * 100 < n {
+                return Err(format!("construct class {} appears in only {} of {} cases", c, k, n));
+            }
+        }
+        if s.label("multi-error") * 100 < 30 * n {
+            return Err(format!("only {} of {} cases have >= 2 independent errors", s.label("multi-error"), n));
+        }
+        if s.label("outcome:accepted") * 100 < 10 * n {
+            return Err(format!("only {} of {} cases are accepted programs", s.label("outcome:accepted"), n));
+        }
+        for c in ["valid-generated", "valid-wide-decls", "valid-multi-file"] {
+            let (ok, all) = (s.label(&format!("accepted:{}", c)), s.label(&format!("class:{}", c)));
+            if ok * 100 < 60 * all {
+                return Err(format!("only {} of {} {} programs compile (generator defect)", ok, all, c));
+            }
+        }
+        let disc: u64 = s.discards.values().sum();
+        if disc * 100 > 10 * n {
+            return Err(format!("{} of {} cases discarded: {:?}", disc, n, s.discards));
+        }
+        if s.label("switch:free") * 100 < 10 * n || s.label("switch:avoid-known-triggers") * 100 < 60 * n {
+            return Err("avoid-switch split is off".into());
+        }
+        if sylt_bin().is_ok() && s.label("xproc:compared") * 100 < 85 * (n - disc) {
+            return Err(format!("cross-process comparison ran on only {} of {} cases", s.label("xproc:compared"), n - disc));
+        }
+        Ok(())
+    }
+
+    fn extra_phase(&self, _cfg: &RunCfg, stats: &mut Stats) -> Vec<Found> {
+        match sylt_bin() {
+            Ok(p) => {
+                stats.extra.insert("cross_process".into(), json!(true));
+                stats.extra.insert("cross_process_binary".into(), json!(p.to_string_lossy()));
+            }
+            Err(why) => {
+                stats.extra.insert("cross_process".into(), json!(false));
+                stats.extra.insert("cross_process_skipped_because".into(), json!(why));
+            }
+        }
+        stats.extra.insert("repetitions".into(), json!({"in_process_accepted": N_ACCEPTED, "in_process_rejected": N_REJECTED, "fresh_processes": XPROC_RUNS, "unrelated_compiles_before_repetition": REP_AFTER_UNRELATED, "unrelated_compiles": gen::unrelated().len()}));
+        Vec::new()
+    }
+}
+
+impl C16 {
+    fn evaluate_in(&self, case: &Case, proj: &Project, dir: &Path, labels: &mut Labels) -> Verdict {
+        let strip = dir.to_string_lossy().to_string();
+        let first = compile_fs(proj);
+        let reps = match &first {
+            Outcome::Accepted(_) => N_ACCEPTED,
+            Outcome::Rejected { .. } => N_REJECTED,
+            Outcome::Panicked { .. } => 4,
+        };
+        for i in 1..reps {
+            if i == REP_AFTER_UNRELATED {
+                for u in gen::unrelated() {
+                    let _ = compile(u);
+                }
+            }
+            let o = if i == REP_FRESH_THREAD { vcore::on_big_stack_scoped(256, || compile_fs(proj)) } else { compile_fs(proj) };
+            if let Some((tail, expl)) = difference(&case.project, &first, &o, &strip) {
+                let how = format!("in-process repetition 0 vs {}", i);
+                return self.violation(case, tail, expl, &how, show_outcome(&first), show_outcome(&o));
+            }
+        }
+        match &first {
+            Outcome::Panicked { .. } => return Verdict::Discard("panics-identically".into()),
+            Outcome::Accepted(_) => {
+                labels.add("outcome:accepted");
+                labels.add(format!("accepted:{}", case.class));
+            }
+            Outcome::Rejected { errors, .. } => {
+                labels.add("outcome:rejected");
+                labels.add(format!("errors-reported:{}", errors.len().min(5)));
+                if let Some(e) = errors.first() {
+                    labels.add(format!("first-error:{}", phase_of(e)));
+                }
+            }
+        }
+
+        // fresh processes
+        if let Ok(bin) = sylt_bin() {
+            let mut runs: Vec<ProcOut> = Vec::new();
+            for v in 0..XPROC_RUNS {
+                match run_driver(bin, dir, proj, v) {
+                    Ok(r) => runs.push(r),
+                    Err(e) => return Verdict::Discard(format!("xproc-{}", if e == "timeout" { "timeout" } else { "spawn-failed" })),
+                }
+            }
+            for v in 1..runs.len() {
+                // a panicking driver prints its thread id to stderr; that is not part of the claim
+                let same = if runs[v].code == Some(101) && runs[0].code == Some(101) {
+                    runs[v].stdout == runs[0].stdout && runs[v].file == runs[0].file
+                } else {
+                    runs[v] == runs[0]
+                };
+                if !same {
+                    let what = if runs[v].file != runs[0].file {
+                        "output-file"
+                    } else if runs[v].stdout != runs[0].stdout {
+                        "stdout"
+                    } else if runs[v].code != runs[0].code {
+                        "exit-status"
+                    } else {
+                        "stderr"
+                    };
+                    let env = if v == 2 { "changed-environment" } else { "same-environment" };
+                    let how = format!("fresh process 0 vs fresh process {} ({})", v, env);
+                    return self.violation(case, format!("process/{}-differs/{}", what, env), format!("two runs of the driver binary differ in {}", what), &how, runs[0].describe(), runs[v].describe());
+                }
+            }
+            // the processes agree with each other; they must also agree with the library result
+            let r = &runs[0];
+            let expected = match &first {
+                Outcome::Accepted(b) => ProcOut { code: Some(0), stdout: Vec::new(), stderr: Vec::new(), file: Some(b.clone()) },
+                Outcome::Rejected { errors, .. } => {
+                    let mut so = Vec::new();
+                    for e in errors {
+                        so.extend_from_slice(e.rendered.clone().unwrap_or_default().as_bytes());
+                        so.push(b'\n');
+                    }
+                    ProcOut { code: Some(1), stdout: so, stderr: r.stderr.clone(), file: None }
+                }
+                Outcome::Panicked { .. } => unreachable!(),
+            };
+            let rendered_ok = match &first {
+                Outcome::Rejected { errors, .. } => errors.iter().all(|e| e.rendered.is_some()),
+                _ => true,
+            };
+            if rendered_ok && (r.code != expected.code || r.stdout != expected.stdout || r.file != expected.file) {
+                let what = if r.file != expected.file {
+                    "output-file"
+                } else if r.stdout != expected.stdout {
+                    "stdout"
+                } else {
+                    "exit-status"
+                };
+                return self.violation(
+                    case,
+                    format!("process/{}-differs/library-vs-driver", what),
+                    format!("the driver binary's {} differs from what the in-process compilation of the same files produced", what),
+                    "in-process vs fresh process",
+                    format!("{}\nexpected from it: {}", show_outcome(&first), expected.describe()),
+                    r.describe(),
+                );
+            }
+            labels.add("xproc:compared");
+        }
+
+        let reported = first.errors().len();
+        let wide = wide_collections(&case.project);
+        let multi = case.planted >= 2 || reported >= 2;
+        if multi {
+            labels.add("multi-error");
+        }
+        if wide >= 2 {
+            labels.add("wide-collections>=2");
+        }
+        Verdict::Pass { nontrivial: multi || wide >= 2 }
     }
 }
